@@ -1377,8 +1377,113 @@ func (e *emitter) dbGrid(dir, tier string, seed int64) error {
 			e.cw.Add("ltx_db_encode", L(B(c.snap), U(uint64(ps)), U(uint64(c.commit))), obsPg, "db-grid/pgnos", true)
 			e.cw.Add("ltx_db_content", L(B(c.snap), U(uint64(ps)), U(uint64(c.commit)), pmSx, prSx), obsContent, "db-grid/content", true)
 		}
+		// restore grid: the snapshot the REAL writeLTXFromDB wrote for a commit just before / at / just
+		// beyond the lock page is published as TXID 1 of a file replica and restored with the REAL
+		// Replica.Restore; decode_lock_zero (Properties/C17.v) is evaluated on the restored file: its
+		// size is the commit (the lock page is the LAST page when commit = lockPgno), the lock page is
+		// zero, every other probed page equals the source's (entry ltx_restore_image_ok)
+		var commits []uint32
+		if tier == "thorough" {
+			commits = []uint32{lock - 1, lock, lock + 1, lock + 6}
+		} else if ps == 65536 {
+			commits = []uint32{lock, lock + 1}
+		}
+		for _, commit := range commits {
+			if err := e.restoreGridCase(g, dir, ps, commit, probes); err != nil {
+				g.close()
+				return err
+			}
+		}
 		g.close()
 		e.extra[fmt.Sprintf("db-grid ps=%d ms", ps)] = int(time.Since(t0).Milliseconds())
 	}
 	return nil
 }
+
+func (e *emitter) restoreGridCase(g *gridFiles, dir string, ps, commit uint32, probes []uint32) (err error) {
+	ctx := context.Background()
+	rdir := filepath.Join(dir, fmt.Sprintf("rgrid%d-%d", ps, commit))
+	_ = os.RemoveAll(rdir)
+	defer os.RemoveAll(rdir)
+	if err := os.MkdirAll(rdir, 0o755); err != nil {
+		return err
+	}
+	client := file.NewReplicaClient(filepath.Join(rdir, "replica"))
+	pr, pw := io.Pipe()
+	go func() {
+		werr := func() error {
+			enc, err := ltx.NewEncoder(pw)
+			if err != nil {
+				return err
+			}
+			if err := enc.EncodeHeader(ltx.Header{Version: ltx.Version, Flags: ltx.HeaderFlagNoChecksum, PageSize: ps, Commit: commit, MinTXID: 1, MaxTXID: 1, Timestamp: time.Now().UnixMilli()}); err != nil {
+				return err
+			}
+			if err := litestream.WriteLTXFromDBVerif(ctx, g.db, g.wal, int(ps), enc, commit, map[uint32]int64{}); err != nil {
+				return err
+			}
+			return enc.Close()
+		}()
+		pw.CloseWithError(werr)
+	}()
+	if _, err := client.WriteLTXFile(ctx, 0, 1, 1, pr); err != nil {
+		return fmt.Errorf("restore grid: publish snapshot (ps %d, commit %d): %w", ps, commit, err)
+	}
+	out := filepath.Join(rdir, "restored.db")
+	opt := litestream.NewRestoreOptions()
+	opt.OutputPath = out
+	status := int64(0)
+	func() {
+		defer func() {
+			if p := recover(); p != nil {
+				status = 9
+			}
+		}()
+		if err := litestream.NewReplicaWithClient(nil, client).Restore(ctx, opt); err != nil {
+			status = int64(classify(err))
+			if status == 0 {
+				status = 5
+			}
+		}
+	}()
+	lock := ltx.LockPgno(ps)
+	cls := fmt.Sprintf("restore-grid commit=lock%+d", int64(commit)-int64(lock))
+	if status != 0 {
+		e.violation("C17/restore-of-snapshot-around-lock-page-failed", fmt.Sprintf("page size %d, commit %d (lock page %d): Restore status %d", ps, commit, lock, status),
+			map[string]any{"scenario": cls, "how": "./check C17 re-runs the grid"})
+		return nil
+	}
+	rf, err := os.Open(out)
+	if err != nil {
+		return err
+	}
+	defer rf.Close()
+	st, err := rf.Stat()
+	if err != nil {
+		return err
+	}
+	pageOf := func(f *os.File, size int64, p uint32) (uint32, uint64) {
+		off := int64(p-1) * int64(ps)
+		if off+int64(ps) > size {
+			return 0, 0
+		}
+		b := make([]byte, ps)
+		if _, err := f.ReadAt(b, off); err != nil {
+			return 0, 0
+		}
+		return srcOf(b)
+	}
+	sst, err := g.db.Stat()
+	if err != nil {
+		return err
+	}
+	pl := make(SxList, 0, len(probes))
+	for _, p := range append(append([]uint32{}, probes...), commit) {
+		sk, so := pageOf(g.db, sst.Size(), p)
+		rk, ro := pageOf(rf, st.Size(), p)
+		pl = append(pl, L(U(uint64(p)), U(uint64(sk)), U(so), U(uint64(rk)), U(ro)))
+	}
+	e.cw.Add("ltx_restore_image_ok", L(U(uint64(ps)), U(uint64(commit)), U(uint64(st.Size()/int64(ps))), B(st.Size()%int64(ps) == 0), pl), I(1), cls+"/spec", true)
+	return nil
+}
+
